@@ -162,6 +162,27 @@ def step (s : State) (w : List String) : State × String :=
         if s.eof == -2 then s!"ok sound=ok ; * || err sound=ok ; {fmtForest s.root}"
         else s!"err sound=ok ; {fmtForest s.root}"
     ({ s with root := r.children }, s!"R {verdict} sound=ok | C {fmtForest r.children} | I {internals r.code r.st r.src s.input.length} | S {alts}")
+  | ["p", "nparse", lim, lg] =>
+    let lo : Option (Option (List UInt8)) :=
+      if lim == "null" then some none
+      else match parseHex lim with
+        | some bs => if bs.contains 0 then none else some (some bs)
+        | none => none
+    match lo, (lg == "log" || lg == "nolog") with
+    | some limits, true =>
+      let r := nodeParse s.root s.fmt limits s.input
+      let verdict := if r.code < 0 then "err" else "ok"
+      ({ s with root := r.children },
+        s!"R {verdict} sound=ok | C {fmtForest r.children} | I code={r.code} | S ok sound=ok ; * || err sound=ok ; {fmtForest s.root}")
+    | _, _ => (s, "bad-op")
+  | ["p", "folder"] =>
+    let cfg : Cfg := {}
+    let r := parseConfig .pre cfg (record none) [] 0 s.input
+    let evs := r.ctx.reverse
+    let nest := if r.code < 0 then "-" else if (Events.run [] evs).isSome then "ok" else "bad"
+    let verdict := if r.code < 0 then "err" else "ok"
+    let code : Int := if r.code < 0 then r.code else 1
+    (s, s!"R {verdict} nest={nest} vals=ok | C {fmtEvents evs} | I code={code} | S {cfgAlts (-2)}")
   | ["p", "end"] => (({} : State), "R ok leaks=0")
   | _ => (s, "bad-op")
 
